@@ -386,6 +386,8 @@ func runC05(c *Ctx, r *Report) {
 	discardedErrorsCannotOccur(c, r, "R-C05.14", func(fn *Fn) bool { return true }, map[string]string{
 		"f.fetchEntry": "a block that cannot be loaded or decoded is skipped by design (R-C12.5 keeps failed decodes nil)",
 	}, "entries that are in the log are missing from the view")
+	r.Doc("R-C05.15", "every writer stamps its entries with its own key as clock id, also after the identity was replaced (adopted from C04: two identities writing under one clock id produce ties the default ordering answers inconsistently, and a later view is then no extension of the earlier one)")
+	importRules(c, r, "C04", []string{"R-C04.1", "R-C04.2"}, "R-C05.15")
 	r.Doc("R-C05.11", "Entry.Copy builds the copy field by field (or replaces every reference-typed field of a struct copy on every path): the copy shares no map or clock with the original")
 	entryCopyFieldwise(c, r, "R-C05.11")
 	r.Doc("R-C05.9", "a copied entry shares no mutable map or clock object with its original: Copy stores a freshly made map and a fresh clock (the link-encrypting codec and the signer write into the copy's additional data)")
